@@ -2,8 +2,11 @@ pub mod cli;
 pub mod core;
 pub mod dm;
 pub mod lit;
+pub mod proggen;
+pub mod progprop;
 pub mod props;
 pub mod tok;
 pub mod worker;
 
 pub mod p03;
+pub mod p02;
